@@ -1,6 +1,6 @@
 """The check driver: build -> proof obligations -> correspondence (model vs implementation) -> monitors ->
 violation protocol -> evidence.  See DESIGN.md section 4."""
-import hashlib, json, os, re, shutil, subprocess, sys, tempfile, time
+import glob, hashlib, json, os, re, shutil, subprocess, sys, tempfile, time
 
 from . import build
 from .build import VERIF, BUILD, COQ, REPO, BuildError, sh
@@ -169,6 +169,8 @@ def run_check(spec, tier):
     known_lines = []
     broken = []         # names of theorems / correspondences that no longer check
     os.makedirs(EVID, exist_ok=True)
+    for old in glob.glob(os.path.join(BUILD, "%s-*" % prop)):   # work directories of earlier failing runs
+        shutil.rmtree(old, ignore_errors=True)
     work = tempfile.mkdtemp(prefix="%s-" % prop, dir=BUILD if os.path.isdir(BUILD) else None)
     model_ok, harness_ok = True, True
     proof = {"ok": False, "obligations": 0, "discharged": 0, "details": {}}
